@@ -439,13 +439,25 @@ int main(int argc, char** argv) {
       if (useD) {
         auto toD = [&](const Paths64& ps) { PathsD r; for (auto& p : ps) { PathD q; for (auto& v : p) q.emplace_back((double)v.x, (double)v.y); r.push_back(q); } return r; };
         PathsD closed, tclosed;
-        { ClipperD c(0); c.AddSubject(toD(subj)); c.AddClip(toD(clip)); c.Execute((ClipType)ct, (FillRule)fr, closed); }
         PolyTreeD tree;
-        { ClipperD c(0); c.AddSubject(toD(subj)); c.AddClip(toD(clip)); c.Execute((ClipType)ct, (FillRule)fr, tree); }
+        // one case in three goes through the convenience wrappers BooleanOp(..., precision) / BooleanOp(..., PolyTreeD&, precision):
+        // both must work on the grid of the requested precision (the results are compared on a 2^-20 grid, finer than 10^-4)
+        int prec = (int)g.range(0, 4);
+        bool wrap = g.chance(33);
+        double cmp_scale = 1.0;
+        if (wrap) {
+          closed = BooleanOp((ClipType)ct, (FillRule)fr, toD(subj), toD(clip), prec);
+          BooleanOp((ClipType)ct, (FillRule)fr, toD(subj), toD(clip), tree, prec);
+          cmp_scale = 1048576.0;
+          vh::stat("evaluations.dense.treeD.wrapper.precision" + std::to_string(prec));
+        } else {
+          { ClipperD c(0); c.AddSubject(toD(subj)); c.AddClip(toD(clip)); c.Execute((ClipType)ct, (FillRule)fr, closed); }
+          { ClipperD c(0); c.AddSubject(toD(subj)); c.AddClip(toD(clip)); c.Execute((ClipType)ct, (FillRule)fr, tree); }
+        }
         tclosed = PolyTreeToPathsD(tree);
-        Paths64 a = toInt(closed, 1.0), b = toInt(tclosed, 1.0);
+        Paths64 a = toInt(closed, cmp_scale), b = toInt(tclosed, cmp_scale);
         if (vh::canon_closed(a) != vh::canon_closed(b))
-          emitS("dense.treeD.pathsets", "IFGP " + S(subj) + " " + S(clip) + " 0 SAMEPATHS " + S(a) + " " + S(b));
+          emitS(wrap ? "dense.treeD.wrapper.pathsets" : "dense.treeD.pathsets", "IFGP " + S(subj) + " " + S(clip) + " 0 SAMEPATHS " + S(a) + " " + S(b));
         else vh::stat("dense.treeD.same");
       } else {
         Paths64 closed;
